@@ -22,7 +22,7 @@ from vlib import q, fx
 from vlib.fx import P, K, O, L, R, U, A
 from vlib.fxmodel import make_fx, model_obj, effect_sites, check_find_path_anchor
 from vlib.pat import Pat, returned
-from vlib.front import unparse, dotted, const_value, AnchorMissing
+from vlib.front import str_eval, unparse, dotted, const_value, AnchorMissing
 
 M = 'phylib/io/model.py'
 U_ = 'phylib/utils/_misc.py'
@@ -209,31 +209,72 @@ def t1_agreement(ctx):
     sw = repo.lookup_method(cls, 'save_spikes_subset_waveforms')
     lw = repo.lookup_method(cls, '_load_spike_waveforms')
 
+    def path_of(fi, node, env=None):
+        """file name of a `<dir> / <name>` expression, None when it is not one / not computable"""
+        if isinstance(node, ast.BinOp) and isinstance(node.op, ast.Div):
+            return str_eval(node.right, env or {}, fi)
+        return None
+
+    def path_seq(fi, node):
+        """ordered file names of a sequence-of-paths value: a literal tuple / list, or a comprehension / tuple(generator) over a literal sequence of constants"""
+        if isinstance(node, ast.Call) and dotted(node.func) in ('tuple', 'list') and len(node.args) == 1:
+            node = node.args[0]
+        if isinstance(node, (ast.Tuple, ast.List)):
+            out = [path_of(fi, e) for e in node.elts]
+            return out if out and all(x is not None for x in out) else None
+        if isinstance(node, (ast.ListComp, ast.GeneratorExp)) and len(node.generators) == 1 and not node.generators[0].ifs and isinstance(node.generators[0].target, ast.Name):
+            it = fi.expand(node.generators[0].iter)
+            if isinstance(it, (ast.Tuple, ast.List)) and all(isinstance(const_value(e), str) for e in it.elts):
+                out = [path_of(fi, node.elt, {node.generators[0].target.id: const_value(e)}) for e in it.elts]
+                return out if out and all(x is not None for x in out) else None
+        return None
+
+    def path_locals(fi):
+        """(local -> file name, local -> [file names]) for the path-valued locals of fi"""
+        one, many = {}, {}
+        for a_ in fi.nodes(ast.Assign):
+            p_, ps = path_of(fi, a_.value), path_seq(fi, a_.value)
+            for t_ in a_.targets:
+                if isinstance(t_, ast.Name) and p_ is not None:
+                    one[t_.id] = p_
+                elif isinstance(t_, ast.Name) and ps is not None:
+                    many[t_.id] = ps
+                elif isinstance(t_, (ast.Tuple, ast.List)) and ps is not None and len(ps) == len(t_.elts):
+                    for e_, n_ in zip(t_.elts, ps):
+                        if isinstance(e_, ast.Name):
+                            one[e_.id] = n_
+        return one, many
+
     def names(fi):
-        return {const_value(n) for n in ast.walk(fi.node) if isinstance(n, ast.Constant) and isinstance(n.value, str) and n.value.startswith('_phy_spikes_subset')}
+        """the subset-store file names fi refers to; None when a name built from the store prefix is not computable"""
+        one, many = path_locals(fi)
+        out = {v for v in one.values() if v.startswith('_phy_spikes_subset')} | {v for vs in many.values() for v in vs if v.startswith('_phy_spikes_subset')}
+        for n in ast.walk(fi.node):
+            if isinstance(n, ast.Constant) and isinstance(n.value, str) and n.value.startswith('_phy_spikes_subset'):
+                if n.value.endswith('.npy') and '%' not in n.value and '{' not in n.value:
+                    out.add(n.value)
+                elif not out:
+                    return None
+        return out
     alf = repo.module(ALF)
     ren = alf.consts.get('_FILE_RENAMES')
     alf_names = {const_value(e.elts[0]) for e in ren.elts if isinstance(e, ast.Tuple)} if isinstance(ren, (ast.List, ast.Tuple)) else set()
-    ctx.check(names(sw) == set(SUBSET) and names(lw) == set(SUBSET), 'C10.T1', lw, 'subset store names', 'saver and loader of the subset store use the same three file names',
-              'subset store names differ: saver %s, loader %s' % (sorted(names(sw)), sorted(names(lw))))
+    nsw, nlw = names(sw), names(lw)
+    ctx.tri(nsw == set(SUBSET) and nlw == set(SUBSET), nsw is not None and nlw is not None and bool(nsw) and bool(nlw) and (nsw != set(SUBSET) or nlw != set(SUBSET)), 'C10.T1', lw, 'subset store names',
+            'saver and loader of the subset store use the same three file names',
+            'subset store names differ: saver %s, loader %s' % (sorted(nsw or ()), sorted(nlw or ())), 'the file names of the subset store were not computable')
     ctx.check(set(SUBSET) <= alf_names, 'C10.T1', alf.rel + ':_FILE_RENAMES', 'ALF copy table', 'the ALF copy table carries all three subset-store files',
               'the ALF copy table lacks %s' % sorted(set(SUBSET) - alf_names))
     # role agreement: which file holds what
-    roles_w, roles_r = {}, {}
-    for a in sw.nodes(ast.Assign):
-        v = a.value
-        if isinstance(v, ast.BinOp) and isinstance(v.op, ast.Div) and isinstance(const_value(v.right), str) and const_value(v.right) in SUBSET:
-            roles_w[unparse(a.targets[0])] = const_value(v.right)
+    roles_w = {k: v for k, v in path_locals(sw)[0].items() if v in SUBSET}
+    roles_r, seqs_r = path_locals(lw)
+    roles_r = {k: v for k, v in roles_r.items() if v in SUBSET}
     saved = {}
     for c_ in sw.calls():
         if dotted(c_.func) == 'np.save' and len(c_.args) == 2:
             saved[roles_w.get(unparse(c_.args[0]))] = unparse(c_.args[1])
         if dotted(c_.func) == 'export_waveforms' and c_.args:
             saved[roles_w.get(unparse(c_.args[0]))] = 'waveforms'
-    for a in lw.nodes(ast.Assign):
-        v = a.value
-        if isinstance(v, ast.BinOp) and isinstance(v.op, ast.Div) and isinstance(const_value(v.right), str) and const_value(v.right) in SUBSET:
-            roles_r[unparse(a.targets[0])] = const_value(v.right)
     read = {}
     for c_ in lw.calls():
         if dotted(c_.func) == 'Bunch':
@@ -260,26 +301,72 @@ def t1_agreement(ctx):
         ctx.violated('C10.T1', lw, 'subset store roles', 'subset store roles disagree: written %s, read %s' % (saved_roles, read))
     else:
         ctx.undecided('C10.T1', lw, 'roles of the subset-store files not recognised (written %s, read %s)' % (saved_roles, read))
-    # all or none
+    # a store with a missing member is never half-loaded: either the existence test covers all three files, or the reads sit in a handler that turns the
+    # missing file into "no store" (the fallback to the raw data)
     guard = [i for i in lw.nodes(ast.If) if any(isinstance(n, ast.Call) and q.method_name(n) in ('exists', 'is_file') for n in ast.walk(i.test))]
+
     def n_exists(t_):
         return sum(1 for n in ast.walk(t_) if isinstance(n, ast.Call) and q.method_name(n) in ('exists', 'is_file'))
-    def all_or_none(t_):
+
+    def quantified(t_):
+        """'all' / 'any' when t_ is all(p.exists() for p in <the three paths>) (resp. any), else None"""
+        if isinstance(t_, ast.Call) and dotted(t_.func) in ('all', 'any') and len(t_.args) == 1 and isinstance(t_.args[0], (ast.GeneratorExp, ast.ListComp)):
+            g_ = t_.args[0]
+            if len(g_.generators) == 1 and not g_.generators[0].ifs and isinstance(g_.elt, ast.Call) and q.method_name(g_.elt) in ('exists', 'is_file') and \
+                    isinstance(g_.elt.func.value, ast.Name) and isinstance(g_.generators[0].target, ast.Name) and g_.elt.func.value.id == g_.generators[0].target.id:
+                it = g_.generators[0].iter
+                ps = seqs_r.get(it.id) if isinstance(it, ast.Name) else path_seq(lw, it)
+                if ps is None and isinstance(it, (ast.Tuple, ast.List)) and all(isinstance(e, ast.Name) and e.id in roles_r for e in it.elts):
+                    ps = [roles_r[e.id] for e in it.elts]
+                if ps is not None and set(ps) == set(SUBSET):
+                    return dotted(t_.func)
+        return None
+
+    def all_or_none(t0):
         # `not a.exists() or not b.exists() or not c.exists()` -> leave ;  `a.exists() and b.exists() and c.exists()` -> use ; `not (a and b and c)` ; `not all(...)`
-        t_ = lw.expand(t_)
-        if isinstance(t_, ast.BoolOp) and isinstance(t_.op, ast.Or) and all(isinstance(v, ast.UnaryOp) and isinstance(v.op, ast.Not) for v in t_.values) and n_exists(t_) == 3:
-            return True
-        if isinstance(t_, ast.BoolOp) and isinstance(t_.op, ast.And) and not any(isinstance(v, ast.UnaryOp) for v in t_.values) and n_exists(t_) == 3:
-            return True
-        if isinstance(t_, ast.UnaryOp) and isinstance(t_.op, ast.Not) and isinstance(t_.operand, ast.BoolOp) and isinstance(t_.operand.op, ast.And) and n_exists(t_) == 3:
-            return True
+        for t_ in (t0, lw.expand(t0)):
+            if isinstance(t_, ast.BoolOp) and isinstance(t_.op, ast.Or) and all(isinstance(v, ast.UnaryOp) and isinstance(v.op, ast.Not) for v in t_.values) and n_exists(t_) == 3:
+                return True
+            if isinstance(t_, ast.BoolOp) and isinstance(t_.op, ast.And) and not any(isinstance(v, ast.UnaryOp) for v in t_.values) and n_exists(t_) == 3:
+                return True
+            if isinstance(t_, ast.UnaryOp) and isinstance(t_.op, ast.Not) and isinstance(t_.operand, ast.BoolOp) and isinstance(t_.operand.op, ast.And) and n_exists(t_) == 3:
+                return True
+            inner = t_.operand if isinstance(t_, ast.UnaryOp) and isinstance(t_.op, ast.Not) else t_
+            if quantified(inner) == 'all':
+                return True
         return False
-    ok = bool(guard) and any(all_or_none(g_.test) for g_ in guard)
-    too_few = bool(guard) and not ok and max(n_exists(lw.expand(g_.test)) for g_ in guard) < 3 and not any(isinstance(n, ast.Call) and dotted(n.func) in ('all', 'any') for g_ in guard for n in ast.walk(lw.expand(g_.test)))
-    any_form = bool(guard) and not ok and any(isinstance(lw.expand(g_.test), ast.BoolOp) and isinstance(lw.expand(g_.test).op, ast.And) and
-                                              all(isinstance(v, ast.UnaryOp) and isinstance(v.op, ast.Not) for v in lw.expand(g_.test).values) for g_ in guard)
-    ctx.tri(ok, too_few or any_form, 'C10.T1', lw, guard[0].test if guard else '_load_spike_waveforms', 'the subset store is used only when all three files exist',
-            'the subset store is loaded although one of its files may be missing', 'the existence test of the subset store was not recognised')
+
+    def weak(t0):
+        t_ = lw.expand(t0)
+        inner = t_.operand if isinstance(t_, ast.UnaryOp) and isinstance(t_.op, ast.Not) else t_
+        if quantified(inner) == 'any' or quantified(t0.operand if isinstance(t0, ast.UnaryOp) else t0) == 'any':
+            return True
+        if any(isinstance(n, ast.Call) and dotted(n.func) in ('all', 'any') for n in ast.walk(t_)):
+            return False
+        if n_exists(t_) < 3:
+            return True
+        return isinstance(t_, ast.BoolOp) and isinstance(t_.op, ast.And) and all(isinstance(v, ast.UnaryOp) and isinstance(v.op, ast.Not) for v in t_.values)
+    # reads protected by a handler that catches the missing-file error and answers "no store"
+    reads = [c_ for c_ in lw.calls() if q.method_name(c_) == '_read_array' or dotted(c_.func) in ('np.load', '_read_array', 'read_array')]
+    IOERR = {'Exception', 'BaseException', 'OSError', 'IOError', 'FileNotFoundError', 'EnvironmentError'}
+
+    def protected(c_):
+        for a_ in lw.ancestors(c_):
+            if isinstance(a_, ast.Try) and any(c_ is n or q.contains(s_, c_) for s_ in a_.body for n in [s_]):
+                for h in a_.handlers:
+                    tys = [h.type] if h.type is not None and not isinstance(h.type, ast.Tuple) else (list(h.type.elts) if h.type is not None else [None])
+                    catches = any(t_ is None or (dotted(t_) or '').split('.')[-1] in IOERR for t_ in tys)
+                    leaves = not any(isinstance(n, ast.Raise) for s_ in h.body for n in ast.walk(s_)) and \
+                        (any(isinstance(s_, ast.Return) and (s_.value is None or const_value(s_.value) is None and isinstance(s_.value, ast.Constant)) for s_ in h.body))
+                    if catches and leaves:
+                        return True
+        return False
+    handled = bool(reads) and all(protected(c_) for c_ in reads)
+    strong = bool(guard) and any(all_or_none(g_.test) for g_ in guard)
+    weak_guard = (bool(guard) and not strong and all(weak(g_.test) for g_ in guard)) or (not guard and bool(reads))
+    ctx.tri(strong or handled, weak_guard and bool(reads) and not handled, 'C10.T1', lw, guard[0].test if guard else '_load_spike_waveforms',
+            'a subset store with a missing member is never loaded (%s)' % ('existence test on all three files' if strong else 'the reads sit in a handler that answers "no store"'),
+            'the subset store is loaded although one of its files may be missing, and the missing file is not turned into "no store"', 'the existence test of the subset store was not recognised')
 
 
 def p1_d1(ctx):
